@@ -205,6 +205,8 @@ def inflate_dict(ck, P):
 def run(ck):
     P = prog("K1")
     ck.configs.add("K1")
+    from .. import guards as _gas
+    _gas.arm_store_before_suspend(ck, P, fields=("adler", "gzindex"))
     # the dictionary id is read across input chunks: a suspended DictId/Dict arm resumes where it stopped
     from . import c04 as _c04
     _c04.resume_atomicity(ck, P)
